@@ -12,7 +12,7 @@ structure J (t : Spec.St) (a : ASt) : Prop where
   sec : ∀ s, (t.f.sectionNodes.find? (fun e => e.1 == s)).isSome = a.entered.contains s
 
 /-- operations admitted by `serialize_replays`: emitter calls only, and a `section` call never goes back to a section entered before -/
-def Adm (a : ASt) : Op → Prop
+def Adm0 (a : ASt) : Op → Prop
   | .section s => ¬ (s < a.nSections) ∨ a.entered.contains s = false
   | .cpool _ _ _ => False
   | op => isEdit op = false
@@ -92,7 +92,7 @@ theorem J_emit (t : Spec.St) (a : ASt) (P : Node) (hJ : J t a) :
 
 theorem J_keep (t : Spec.St) (a : ASt) (hJ : J t a) : J { f := t.f, d := t.d } a := hJ
 
-theorem J_step (t : Spec.St) (a : ASt) (op : Op) (hJ : J t a) (hA : Adm a op) : J (Spec.step t op).1 (astep a op) := by
+theorem J_step0 (t : Spec.St) (a : ASt) (op : Op) (hJ : J t a) (hA : Adm0 a op) : J (Spec.step t op).1 (astep a op) := by
   have fr := hJ.fr
   rw [spec_step_state]
   cases op with
@@ -298,18 +298,13 @@ theorem J_step (t : Spec.St) (a : ASt) (op : Op) (hJ : J t a) (hA : Adm a op) : 
     · have hge : s ≥ t.f.nSections := by rw [fr.nSections]; omega
       have e : astep a (.section s) = a := by simp [astep, hs]
       rw [e]; simpa [front, hge] using hJ
-  | cpool l isz bytes => exact absurd hA (by simp [Adm])
-  | cursor n => exact absurd hA (by simp [Adm, isEdit])
-  | remove n => exact absurd hA (by simp [Adm, isEdit])
-  | removerange x y => exact absurd hA (by simp [Adm, isEdit])
-  | addnode n => exact absurd hA (by simp [Adm, isEdit])
-  | addafter n r => exact absurd hA (by simp [Adm, isEdit])
-  | addbefore n r => exact absurd hA (by simp [Adm, isEdit])
-
-/-- every operation of the sequence is admissible in the state it is issued in -/
-def AdmAll : ASt → List Op → Prop
-  | _, [] => True
-  | a, op :: rest => Adm a op ∧ AdmAll (astep a op) rest
+  | cpool l isz bytes => exact absurd hA (by simp [Adm0])
+  | cursor n => exact absurd hA (by simp [Adm0, isEdit])
+  | remove n => exact absurd hA (by simp [Adm0, isEdit])
+  | removerange x y => exact absurd hA (by simp [Adm0, isEdit])
+  | addnode n => exact absurd hA (by simp [Adm0, isEdit])
+  | addafter n r => exact absurd hA (by simp [Adm0, isEdit])
+  | addbefore n r => exact absurd hA (by simp [Adm0, isEdit])
 
 theorem J_init (r : Nat) : J (Spec.St.init r) { regSize := r } := by
   refine ⟨⟨rfl, rfl, rfl, rfl, rfl, rfl, ?_, ?_, ?_, ?_⟩, rfl, rfl, ?_⟩
@@ -324,14 +319,5 @@ theorem J_init (r : Nat) : J (Spec.St.init r) { regSize := r } := by
     · have h1 : ((0 : Nat) == s) = false := by simpa using (Ne.symm h)
       have h2 : (s == 0) = false := by simpa using h
       simp [h1, h2]
-
-theorem J_run : ∀ (ops : List Op) (t : Spec.St) (a : ASt), J t a → AdmAll a ops → J (Spec.run t ops) (arun a ops) := by
-  intro ops
-  induction ops with
-  | nil => intro t a h _; exact h
-  | cons op rest ih =>
-    intro t a h hadm
-    have := ih _ _ (J_step t a op h hadm.1) hadm.2
-    simpa [Spec.run, arun, List.foldl_cons] using this
 
 end AsmjitVerif.Builder
